@@ -14,7 +14,7 @@
    SetPayload is the REPAIRED function (notes/candidate-fixes.patch, hunk for packet/modify.go,
    defect F7): the flags byte is cleared when the adaptation field grows from length 0.
    AFP.stuffingEnd is the REPAIRED function (hunk for packet/adaptationfield.go, defect F6).
-   Header, (*Packet).Payload and (*Packet).SetPayload carry the C05 guards of
+   Header, the Payload method and the SetPayload method carry the C05 guards of
    /verif/notes/c05-guards.patch (adaptation_field_length running past the packet). *)
 From Gots Require Import Base.Prelude.
 Module Packet.
